@@ -5,13 +5,26 @@ use xhtmlchardet::detect;
 /// mark), the value of its `encoding` pseudo-attribute.
 ///
 /// The declaration consists of ASCII characters only; in the 16 and 32 bit
-/// encodings the other bytes of each character are zero, and a byte order
-/// mark has no ASCII bytes, so it is enough to look at the ASCII bytes.
+/// encodings the other bytes of each character are zero, so it is enough to
+/// look at the bytes that are not zero, after the byte order mark. Any other
+/// byte that is not ASCII means that this is not an XML declaration.
 fn xml_declaration(data: &[u8]) -> Option<String> {
+    let data = if data.starts_with(&[0xEF, 0xBB, 0xBF]) {
+        &data[3..]
+    } else if data.starts_with(&[0xFF, 0xFE]) || data.starts_with(&[0xFE, 0xFF]) {
+        &data[2..]
+    } else if data.starts_with(&[0, 0, 0xFE, 0xFF]) || data.starts_with(&[0, 0, 0xFF, 0xFE]) {
+        &data[4..]
+    } else {
+        data
+    };
     let mut ascii = String::new();
     for &b in data.iter().take(1024) {
-        if b == 0 || b >= 0x80 {
+        if b == 0 {
             continue;
+        }
+        if b >= 0x80 {
+            return None;
         }
         ascii.push(b as char);
         if b == b'>' {
